@@ -62,6 +62,7 @@ def probe_all(ctx, s, keys, true, where):
                 ctx.fail(f"a key owning an unshared counter is not estimated exactly {where}", key=k, estimate=est, true=true[k],
                          unshared_rows=len(own), rows=len(cellmap[k]))
         ctx.check((k in s) == (est != 0), f"`in` disagrees with check() {where}", key=k)
+        ctx.check(s.check_alt(s.hashes(k)) == est, f"check_alt(hashes(key)) disagrees with check(key) {where}", key=k)
     ctx.count("full_probes")
 
 
